@@ -80,6 +80,9 @@ def gen(rng, tier):
             # a cancel request naming the requests which wait in the
             # scheduler's raptor backlog (master not yet registered)
             'cancel_backlog': rng.random() < 0.3,
+            # the master's publication of an executable request to the agent
+            # fails (transport error): the batch it came in is FAILED
+            'insert_fail': rng.choice([0.0, 0.0, 0.5]),
             'at_register': rng.choice([0, 0, 1, 3]),
             'preempt': rng.choice([0.0, 0.0, 0.1, 0.3])}
 
@@ -263,6 +266,7 @@ def _run(seed, scenario, trace=None, tier='quick'):
               'env_before': None, 'worker_proc': None, 'dispatched': set(),
               'proc_uid': {}, 'fork_failed': set(), 'cur_req': None,
               'svc': {}, 'extra': {}, 'canceled': set(),
+              'master_failed': {}, 'insert_failed': False,
               'master_started': False}
         sim.data['c20'] = st
 
@@ -349,6 +353,28 @@ def _run(seed, scenario, trace=None, tier='quick'):
                         'HOME': '/home/sim', 'PATH': '/usr/bin:/bin'}
 
             # master -------------------------------------------------------------
+            if not getattr(mmod.Master, '_dst_publish', None):
+                mmod.Master._dst_publish = mmod.Master.publish
+
+            def m_publish(self, pubsub, msg, topic=None):
+                if sc.get('insert_fail') and isinstance(msg, dict) and \
+                        msg.get('cmd') == 'insert' and \
+                        sim.ch.coin(sc['insert_fail'], 'insert_fail'):
+                    sim.fault('master_publish_fail')
+                    st['insert_failed'] = True
+                    raise RuntimeError('injected: publish failed')
+                return mmod.Master._dst_publish(self, pubsub, msg, topic)
+            mmod.Master.publish = m_publish
+
+            def on_master_pub(ev):
+                if ev['kind'] == 'pub' and ev.get('chan') == rpc.STATE_PUBSUB \
+                        and ev.get('who') == 'master':
+                    for uid, state in ev['m'].get('things', []):
+                        if state == rps.FAILED:
+                            st['master_failed'][uid] = \
+                                st['master_failed'].get(uid, 0) + 1
+            sim.listeners.append(on_master_pub)
+
             def master_main():
                 m = mmod.Master()
                 st['master'] = m
@@ -491,7 +517,7 @@ def _run(seed, scenario, trace=None, tier='quick'):
             while sim.now < limit:
                 sim.sleep(0.5)
                 if all(u in st['results'] or u in st['exec_routed'] or
-                       u in st['canceled']
+                       u in st['canceled'] or u in st['master_failed']
                        for u in st['tasks']) and net.idle() and \
                         all(v['ret'] is not None for v in st['svc'].values()):
                     break
@@ -636,6 +662,21 @@ def _run(seed, scenario, trace=None, tier='quick'):
                 r = sc['reqs'][i] if i < len(sc['reqs']) else st['extra'][i]
                 res = st['results'].get(uid, [])
                 routed = st['exec_routed'].get(uid, [])
+                mf = st['master_failed'].get(uid, 0)
+                if mf:
+                    # the master failed the batch this request came in (only
+                    # legitimate after the injected publish failure): that is
+                    # its one outcome - it was not dispatched as well
+                    if not st['insert_failed']:
+                        sim.violation(PROP, 'result_count', 'master_failed',
+                                      {'uid': uid, 'failed_by_master': mf})
+                    elif mf + len(res) + len(routed) != 1:
+                        sim.violation(PROP, 'result_count',
+                                      'failed_and_dispatched',
+                                      {'uid': uid, 'failed_by_master': mf,
+                                       'results': len(res),
+                                       'to_agent': len(routed)})
+                    continue
                 if r['mode'] == 'executable':
                     if len(routed) != 1 or res:
                         sim.violation(PROP, 'misrouted', 'master',
